@@ -317,7 +317,7 @@ def value_check(pid, tier_, plan, kbits=14, rule='', extra_execs=(), all_known=F
         big = [gen.gen_values(random.Random(seed() + 1000 + i), k['sol'], nassign=20, npts=2, evaluators=evs, mix=mix) for i in range(2)]
         run_executions(big, wd)
         _, rj2 = validate_executions(big, wd, relax=('live', 'memo'), oracle=True, batch_lines=2000, extra_env=env)
-        if any(y.reason == 'acc' for y in rj2):
+        if any(y.reason in ('acc', 'value') for y in rj2):      # the larger sample shows it too (statistic or tolerance)
             confirmed.append(x)
         else:
             print('note: accuracy statistic of %s %s exceeded its screening threshold on %d samples but not on the confirmation sample; not reported' % (k['sol'], k['fn'], 10))
